@@ -57,7 +57,7 @@ def _sub_logged(text, rx, repl, rule, log, masked=True):
     return "".join(out), n
 
 
-def auto_rules(text, log):
+def auto_rules(text, log, lifetimes="erase"):
     # R2: attributes, doc comments, restricted visibility
     m = L.mask(text, keep_comments=True)
     # doc comments: lines starting with /// or //!
@@ -97,12 +97,18 @@ def auto_rules(text, log):
     m = L.mask(text)
     if re.search(r"'\w+\s*:\s*(loop|while|for|\{)|\b(break|continue)\s+'\w", m):
         raise Lost("loop label in unit (R1 cannot tell it from a lifetime)")
+    if lifetimes == "static":
+        text, _ = _sub_logged(text, r"&\s*'(?!static\b)\w+\s*", "&'static ", "R1-lifetime(static)", log)
+        text, _ = _sub_logged(text, r"&\s*'static\s*", "&'static ", "R1-lifetime(static)", log)
+        m0 = L.mask(text)
+        text = text.replace("&'static ", "&\x00STATIC ")
     text, _ = _sub_logged(text, r"&\s*'\w+\s*", "&", "R1-lifetime", log)
     text, _ = _sub_logged(text, r"<\s*'\w+\s*(,\s*'\w+\s*)*>", "", "R1-lifetime", log)
     text, _ = _sub_logged(text, r"<\s*'\w+\s*(,\s*'\w+\s*)*,\s*", "<", "R1-lifetime", log)
     text, _ = _sub_logged(text, r",\s*'\w+\s*(?=[,>])", "", "R1-lifetime", log)
     text, _ = _sub_logged(text, r"\bfor\s*<\s*>\s*", "", "R1-lifetime", log)
-    m = L.mask(text)
+    text = text.replace("&\x00STATIC ", "&'static ")
+    m = L.mask(text).replace("&'static", "&       ")
     if re.search(r"(?<![\w'])'[A-Za-z_]\w*(?!')", m):
         bad = re.search(r"(?<![\w'])'[A-Za-z_]\w*(?!')", m)
         raise Lost(f"lifetime left after R1 near: {text[max(0,bad.start()-30):bad.end()+30]!r}")
@@ -239,7 +245,26 @@ def r10_drop_loop(text, log):
     return text[:mt.start()] + new + text[bc + 1:]
 
 
-STRUCTURAL = {"R5": r5_for_bytes, "R7": r7_mut_self, "R0": r0_named_return, "R4": r4_format, "R12": r12_unreachable,
+def r12_debug_assert(text, log):
+    """R12: `debug_assert!(COND, msg..)` -> `require_true(COND)` (exec fn with `requires b`): the assertion becomes an obligation."""
+    n = 0
+    while True:
+        m = L.mask(text)
+        mt = re.search(r"\bdebug_assert!\s*\(", m)
+        if not mt:
+            break
+        close = L.match_close(m, mt.end() - 1)
+        comma = L.depth0_find(m, mt.end(), close, ",")
+        cond = text[mt.end():comma if comma > 0 else close].strip()
+        log.append({"rule": "R12-debug-assert", "before": text[mt.start():close + 1], "after": f"require_true({cond})"})
+        text = text[:mt.start()] + f"require_true({cond})" + text[close + 1:]
+        n += 1
+    if n == 0:
+        raise Lost("R12: no debug_assert! found")
+    return text
+
+
+STRUCTURAL = {"R12d": r12_debug_assert, "R5": r5_for_bytes, "R7": r7_mut_self, "R0": r0_named_return, "R4": r4_format, "R12": r12_unreachable,
               "R6": r6_for_enumerate, "R10": r10_drop_loop}
 
 
@@ -393,11 +418,28 @@ def _extract_unit(repo, unit, log, canary=False):
         else:
             text = unit["slice_header"] + " {\n    " + expr + "\n}"
     try:
-        text = auto_rules(text, ulog)
+        text = auto_rules(text, ulog, unit.get("lifetimes", "erase"))
         text = apply_rewrites(text, unit.get("rewrites", []), ulog)
         if unit.get("pub_fields") or re.match(r"\s*pub struct\b", text):
             # R2-vis: private fields made `pub` (visibility only; needed for lemmas in a sibling module)
             text, n = re.subn(r"(?m)^(\s*)(?!pub\b)(\w+\s*:\s)", r"\1pub \2", text)
+            tm = re.match(r"\s*pub struct \w+\s*(<[^>]*>)?\s*\(", text)
+            if tm:
+                mm = L.mask(text)
+                po = tm.end() - 1
+                pc = L.match_close(mm, po)
+                parts, depth, last = [], 0, po + 1
+                for k in range(po + 1, pc):
+                    if mm[k] in "(<[":
+                        depth += 1
+                    elif mm[k] in ")>]":
+                        depth -= 1
+                    elif mm[k] == "," and depth == 0:
+                        parts.append(text[last:k]); last = k + 1
+                parts.append(text[last:pc])
+                parts = [(" pub " + x.strip()) if x.strip() and not x.strip().startswith("pub") else x for x in parts]
+                text = text[:po + 1] + ",".join(parts) + text[pc:]
+                n += len(parts)
             ulog.append({"rule": "R2-vis", "before": "private fields", "after": f"pub ({n} fields)"})
         if unit.get("opaque"):
             # R16: body dropped, signature kept (assumed contract, L1)
